@@ -471,6 +471,7 @@ type iwRun struct {
 	wpanic  string
 	closed  bool
 	aborted bool
+	broken  bool // a data packet failed: the buffered writer keeps that error
 	nwrites int
 }
 
@@ -562,7 +563,7 @@ func (x *iwRun) do(a iwAction) {
 			if x.werr == nil {
 				x.fail("C06/ibb-write/wrong-outcome", "Write/Flush returned nil without sending a data packet")
 			}
-			if !x.closed {
+			if !x.closed && !x.broken {
 				x.fail("C06/ibb-write/spurious-error", fmt.Sprintf("Write/Flush on an open stream failed at once: %v", x.werr))
 			}
 		} else {
@@ -602,6 +603,9 @@ func (x *iwRun) do(a iwAction) {
 			return
 		}
 		x.writerReturned()
+		if a.Op == "nak" {
+			x.broken = true
+		}
 		x.label("WAck %s", hx.CoqBool(a.Op == "ack"))
 		if x.wok != (a.Op == "ack") {
 			x.fail("C06/ibb-write/wrong-outcome", fmt.Sprintf("the reply to the data packet was %s but Write/Flush returned %v", a.Op, x.werr))
